@@ -30,7 +30,7 @@ func init() {
 			{ID: "C10-R2", Title: "callback wiring for every characteristic", Decides: "every change of every characteristic reaches the fan-out with the right originator", Floor: 5, Run: c10r2},
 			{ID: "C10-R3", Title: "unchanged value => no callbacks; compared value = stored value", Decides: "no event when the value did not change", Floor: 3, Run: func(c *core.Ctx) { c10r3(c); passThrough(c, "C10"); callbackArgumentOrder(c) }},
 			{ID: "C10-R4", Title: "subscription state per session, keyed by the characteristic object", Decides: "never-subscribed / unsubscribed connections receive none", Floor: 6, Run: c10r4},
-			{ID: "C10-R5", Title: "closed connections leave the recipient set; a recipient that closes during the fan-out does not abort it", Decides: "closed connections receive none", Floor: 2, Run: func(c *core.Ctx) { c10r5(c); onlySessionsOfConnectionsInStore(c) }},
+			{ID: "C10-R5", Title: "closed connections leave the recipient set; a recipient that closes during the fan-out does not abort it", Decides: "closed connections receive none", Floor: 2, Run: func(c *core.Ctx) { c10r5(c); onlySessionsOfConnectionsInStore(c); polarityEverywhere(c, "C10") }},
 			{ID: "C10-R6", Title: "the fan-out has no side effects on characteristics", Decides: "exactly one event carrying the new value; none to the originator", Floor: 1, Run: fanoutHasNoSideEffects},
 		},
 	})
@@ -231,6 +231,20 @@ func c10r1(c *core.Ctx) {
 					if x.Op == token.LSS && (b.Comment == "rangeindex.loop" || b.Comment == "for.loop") {
 						return true
 					}
+					// the number of connections against a constant ( nothing to do for an empty list )
+					for _, pr := range [][2]ssa.Value{{x.X, x.Y}, {x.Y, x.X}} {
+						if _, isK := core.ConstInt(pr[1]); !isK {
+							continue
+						}
+						if call, ok := pr[0].(*ssa.Call); ok {
+							if bi, isB := call.Call.Value.(*ssa.Builtin); isB && bi.Name() == "len" && core.AnySource(call.Call.Args[0], func(sv ssa.Value) bool {
+								cl, ok := sv.(*ssa.Call)
+								return ok && core.IsInvoke(cl, qContext, "ActiveConnections")
+							}) {
+								return true
+							}
+						}
+					}
 				}
 				return false
 			}
@@ -269,6 +283,26 @@ func c10r1(c *core.Ctx) {
 			}
 		})
 		c.Check(freshOK, "notification-per-recipient@"+fname(f), posOf(w), "every write is preceded by the creation of its own notification", "one notification object is serialised for several recipients: its body reader is drained by the first, the others receive headers announcing a body that never comes")
+	}
+	// somebody is sent something: a fan-out whose send cannot be reached (a guard that is always taken) sends no event at all; and
+	// what is sent is a notification that was built (the send is on the nil side of the builder's error)
+	c.Check(len(writes) > 0, "fanout-sends@"+fname(f), f.Pos(), "the fan-out reaches a write to a connection", "no write to a connection is reachable in the fan-out: no event is ever sent")
+	for _, w := range writes {
+		if w.Parent() != f {
+			continue
+		}
+		core.Instrs(f, func(i ssa.Instruction) {
+			if !core.IsCall(i, mod+"/hap.NewCharacteristicNotification") {
+				return
+			}
+			call := i.(*ssa.Call)
+			isErr := func(v ssa.Value) bool {
+				e, ok := v.(*ssa.Extract)
+				return ok && e.Tuple == ssa.Value(call) && e.Index == 1
+			}
+			c.Check(core.Dominated(w, core.IsNilFact(isErr)), "send-after-built@"+fname(f), posOf(w), "the send is on the nil side of the notification builder's error",
+				"the send is not on the branch where the notification was built (the test of the builder's error is inverted or dropped): built notifications are never sent, and a nil one is written")
+		})
 	}
 	// at most one write per loop iteration
 	var header *ssa.BasicBlock
